@@ -60,6 +60,41 @@ fn len_class(n: usize) -> &'static str {
     }
 }
 
+/// What the store saw just before the judged query, in one case out of eight: the searches a person typing
+/// that query causes (every shorter prefix; the query followed by a separator, then backspace; one letter too
+/// many, then backspace; only its first letters). Their results are not judged here; the judged query must find
+/// the record whatever the store answered before.
+fn lead_in(cx: &mut Cx, st: &St, q: &str) {
+    if !cx.rng.chance(1, 8) {
+        return;
+    }
+    let cs: Vec<char> = q.chars().collect();
+    if cs.is_empty() || cs.len() > 40 {
+        return;
+    }
+    cx.count("judged queries preceded by the searches of a person typing them");
+    match cx.rng.below(4) {
+        0 => {
+            let from = cs.len().saturating_sub(8).max(1);
+            for k in from..cs.len() {
+                let _ = st.search_ids(&s(&cs[..k]));
+            }
+        }
+        1 => {
+            let _ = st.search_ids(&format!("{} ", q));
+        }
+        2 => {
+            let extra = *cx.rng.pick(&gen::lower_alphabet(st.lang));
+            let _ = st.search_ids(&format!("{}{}", q, extra));
+            let _ = st.search_ids(&format!("{}{} ", q, extra));
+        }
+        _ => {
+            let k = cx.rng.range(1, 3).min(cs.len());
+            let _ = st.search_ids(&s(&cs[..k]));
+        }
+    }
+}
+
 impl Finds {
     fn check_record(&self, cx: &mut Cx, st: &St, store_desc: &serde_json::Value, rec: &Rec, done_words: &mut BTreeSet<String>) {
         let lang = st.lang;
@@ -93,6 +128,7 @@ impl Finds {
                             continue;
                         }
                         cx.ctx(format!("C03 lang={} title={:?} q={:?}", lang, rec.1, q));
+                        lead_in(cx, st, &q);
                         let got = st.search_ids(&q);
                         cx.eval();
                         cx.key(hparts(&[lang, &s(&cs), &plen.to_string()]));
@@ -176,6 +212,7 @@ impl Finds {
                                 continue;
                             }
                             cx.ctx(format!("C04 lang={} title={:?} q={:?}", lang, rec.1, q));
+                            lead_in(cx, st, &q);
                             let got = st.search_ids(&q);
                             cx.eval();
                             cx.key(hparts(&[lang, &q, &s(&cs)]));
@@ -201,6 +238,7 @@ impl Finds {
                     return;
                 }
                 cx.ctx(format!("C13 lang={} title={:?}", lang, rec.1));
+                lead_in(cx, st, &rec.1);
                 let got = st.search_ids(&rec.1);
                 cx.eval();
                 cx.key(hparts(&[lang, &rec.1, "whole"]));
@@ -228,6 +266,7 @@ impl Finds {
                             continue;
                         }
                         cx.ctx(format!("C13 lang={} title={:?} q={:?}", lang, rec.1, q));
+                        lead_in(cx, st, &q);
                         let got = st.search_ids(&q);
                         cx.eval();
                         cx.key(hparts(&[lang, &rec.1, name]));
@@ -262,6 +301,7 @@ impl Finds {
                                 continue;
                             }
                             cx.ctx(format!("C14 lang={} title={:?} q={:?}", lang, rec.1, q));
+                            lead_in(cx, st, &q);
                             let got = st.search_ids(&q);
                             cx.eval();
                             cx.key(hparts(&[lang, &q, "split"]));
@@ -297,6 +337,7 @@ impl Finds {
                         continue;
                     }
                     cx.ctx(format!("C14 lang={} title={:?} q={:?}", lang, rec.1, q));
+                    lead_in(cx, st, &q);
                     let got = st.search_ids(&q);
                     cx.eval();
                     cx.key(hparts(&[lang, &rec.1, &q, "join"]));
@@ -388,6 +429,7 @@ impl Finds {
                 continue;
             }
             cx.ctx(format!("C04 exhaustive lang={} title={:?} q={:?}", lang, rec.1, q));
+            lead_in(cx, &st, &q);
             let got = st.search_ids(&q);
             cx.eval();
             cx.count("exhaustive-letter edits");
@@ -427,10 +469,10 @@ impl Prop for Finds {
     }
     fn floors(&self) -> Vec<(&'static str, u64, u64)> {
         match self.0 {
-            Which::Prefix => vec![("prefix len 1", 500, 5000), ("prefix len 2", 500, 5000), ("prefix len >3", 2000, 20000), ("word with stem < len", 200, 2000), ("function word", 20, 200), ("word > 20 letters", 20, 200), ("titles with more than 20 words", 100, 1000)],
-            Which::Typo => vec![("substitution at first", 50, 500), ("insertion at first", 50, 500), ("deletion at first", 50, 500), ("transposition at first", 50, 500), ("transposition at last", 50, 500), ("len 5", 200, 2000), ("len >20", 100, 1000), ("titles with more than 20 words", 30, 300), ("exhaustive-letter edits", 30000, 250000), ("exhaustive-letter words that are function words", 150, 150)],
-            Which::Whole => vec![("whole title", 1000, 10000), ("first last", 300, 3000), ("last first", 300, 3000), ("title with function word", 50, 500), ("titles with more than 20 words", 200, 2000), ("catalogues searched while small, then grown and given limit = N", 6, 60)],
-            Which::SplitJoin => vec![("split", 2000, 20000), ("split after first letter", 200, 2000), ("join", 100, 1000), ("join with 1-letter first word", 3, 30), ("titles with more than 20 words", 100, 1000), ("split followed by a separator", 20000, 200000)],
+            Which::Prefix => vec![("prefix len 1", 500, 5000), ("prefix len 2", 500, 5000), ("prefix len >3", 2000, 20000), ("word with stem < len", 200, 2000), ("function word", 20, 200), ("word > 20 letters", 20, 200), ("judged queries preceded by the searches of a person typing them", 5000, 50000), ("titles with more than 20 words", 100, 1000)],
+            Which::Typo => vec![("substitution at first", 50, 500), ("insertion at first", 50, 500), ("deletion at first", 50, 500), ("transposition at first", 50, 500), ("transposition at last", 50, 500), ("len 5", 200, 2000), ("len >20", 100, 1000), ("judged queries preceded by the searches of a person typing them", 5000, 50000), ("titles with more than 20 words", 30, 300), ("exhaustive-letter edits", 30000, 250000), ("exhaustive-letter words that are function words", 150, 150)],
+            Which::Whole => vec![("whole title", 1000, 10000), ("first last", 300, 3000), ("judged queries preceded by the searches of a person typing them", 5000, 50000), ("last first", 300, 3000), ("title with function word", 50, 500), ("titles with more than 20 words", 200, 2000), ("catalogues searched while small, then grown and given limit = N", 6, 60)],
+            Which::SplitJoin => vec![("split", 2000, 20000), ("split after first letter", 200, 2000), ("judged queries preceded by the searches of a person typing them", 5000, 50000), ("join", 100, 1000), ("join with 1-letter first word", 3, 30), ("titles with more than 20 words", 100, 1000), ("split followed by a separator", 20000, 200000)],
         }
     }
     fn ratios(&self) -> Vec<(&'static str, &'static str, f64, f64)> {
